@@ -122,9 +122,13 @@ structure Env where
   xAt : List (Option Nat)
   deriving Repr
 
+/-- `fixSend` / `fixEmptySub`: the two small repairs proposed for D25 / D60 (`false` = the code as it stands);
+    every theorem holds for both settings -/
 structure Cfg where
   progs : List (List Y)
   env : Env
+  fixSend : Bool := false
+  fixEmptySub : Bool := false
   deriving Repr
 
 inductive Ev
@@ -357,7 +361,7 @@ def recvValue (script : List (Option Nat)) : Val :=
   | some n => Val.data n
   | none => Val.none
 
-def execPre (s : St) (t : Nat) (tk : Task) : ExecPre × St :=
+def execPre (cfg : Cfg) (s : St) (t : Nat) (tk : Task) : ExecPre × St :=
   match tk.rf with
   | some (.recv _) =>
     match tk.rv with
@@ -375,7 +379,9 @@ def execPre (s : St) (t : Nat) (tk : Task) : ExecPre × St :=
       else
         let l := sendAccepted s.sendScript (sendChunk rem bs)
         let s := { s with sendScript := (popScript s.sendScript (sendChunk rem bs)).2 }
-        if l = 0 then (.raised .nameError, s)                       -- D25: `scheduler` is not defined in _sendReturnFunc
+        if l = 0 then
+          if cfg.fixSend then (.abort, registerSelect s t [] [fd] [fd] (to.map (s.now + ·)))   -- repaired: select and try again later
+          else (.raised .nameError, s)                              -- D25: `scheduler` is not defined in _sendReturnFunc
         else if rem - l = 0 then (.resume (.val (.num (sent + l))), setTask s t clr)
         else
           let s := setTask s t (fun k => { k with rf := some (.send fd (rem - l) (sent + l) to bs) })
@@ -451,10 +457,11 @@ def topOut (s : St) (t : Nat) : Out → St
 def finishSub (s : St) (t p : Nat) : St := fastSchedule (setStatus s t .done) p true
 
 /-- `AgainTask.run_again` after the wrapped generator produced `o` at its resume number `pc` -/
-def subOut (s : St) (t p : Nat) (pc : Nat) : Out → St
+def subOut (fx : Bool) (s : St) (t p : Nat) (pc : Nat) : Out → St
   | .raise e => finishSub (setTask s p (fun k => { k with re := some e })) t p
   | .stop =>
-    if pc = 0 then finishSub (setTask s p (fun k => { k with re := some .stopIteration })) t p   -- `except Exception` catches it
+    -- D60: a generator that returns before its first yield: `except Exception` catches the StopIteration (`fx`: repaired)
+    if pc = 0 ∧ fx = false then finishSub (setTask s p (fun k => { k with re := some .stopIteration })) t p
     else finishSub s t p
   | .yield y =>
     if y.isBlocking then doYield s t y
@@ -496,7 +503,7 @@ def resumeGen (cfg : Cfg) (s : St) (t : Nat) (tk : Task) (r : Recv) : St :=
     | none => { s with crashed := true }
     | some prog =>
       let s := if tk.pc = 0 then setTask s p (fun k => { k with rv := .none }) else s
-      subOut s t p tk.pc (genStep s.timers.length prog tk.pc r)
+      subOut cfg.fixEmptySub s t p tk.pc (genStep s.timers.length prog tk.pc r)
   | .timer j => timerStep s t j tk.pc
 
 /-! ### `Scheduler.cycle` and `Scheduler.run` -/
@@ -516,7 +523,7 @@ def cycleExec (cfg : Cfg) (s : St) : St :=
     match s.tasks[t]? with
     | none => { s with crashed := true }
     | some tk =>
-      match execPre s t tk with
+      match execPre cfg s t tk with
       | (.abort, s1) => s1
       | (.raised _, s1) => setStatus s1 t .dead
       | (.resume r, s1) =>
